@@ -152,8 +152,11 @@ def literal_lemmas(reg):
     prove_unsat(reg, L("sound_only_decimal_floating_constants_match"), [in_(x, core), z3.Not(in_(x, dec))],
                 fn, [x], literal_replay, "L(FLOAT_RE) is a subset of the C99 decimal floating constants")
     prove_unsat(reg, L("complete_every_decimal_floating_constant_matches"),
-                [in_(x, dec), z3.Not(in_(x, lead0)), z3.Not(in_(x, core))], fn, [x], literal_replay,
-                "every C99 decimal floating constant whose integer part has no redundant leading zero is in L(FLOAT_RE)")
+                [in_(x, dec), z3.Not(in_(x, lead0)), z3.Not(in_(x, core)),
+                 # a match that starts after the point or the exponent sign and reaches the end still tags the constant
+                 z3.Not(in_(x, z3.Concat(z3.Star(rex.ASCII), rex.NONWORD, core)))], fn, [x], literal_replay,
+                "every C99 decimal floating constant whose integer part has no redundant leading zero is in L(FLOAT_RE) "
+                "(or is tagged through a match of its tail that reaches its end)")
     prove_unsat(reg, L("region_leading_zero_constants_match"),
                 [in_(x, dec), in_(x, lead0), z3.Not(in_(x, core)),
                  # and no inner match (started after a non-word character) reaches the end of the token either
